@@ -248,6 +248,47 @@ def symptom_of(problem):
     return problem.split(';')[0]
 
 
+def lock_order_problem(ctx, s):
+    """The instrumented locks of one run: which lock was asked for while which other one was held.  A cycle among these
+    'held -> asked for' edges is a deadlock waiting for its schedule (even if this run went through).  Without a cycle the
+    locks are ranked topologically and the threads' Acq/Rel programs are given to the model (wire_210): they must satisfy
+    the discipline `ordered` of Model/LockOrder.v, for which the theorems C20_lock_order_* hold."""
+    ops = s.lockops
+    locks = []
+    for _, _, l in ops:
+        if l not in locks:
+            locks.append(l)
+    if len(locks) < 2:
+        return None
+    held, edges, progs = {}, set(), {}
+    for t, k, l in ops:
+        if t is None:
+            continue
+        if k == 'a':
+            for h in held.get(t, []):
+                edges.add((h, l))
+            held.setdefault(t, []).append(l)
+        elif l in held.get(t, []):
+            held[t].remove(l)
+        progs.setdefault(t, []).append((k, l))
+    rank, remaining = {}, list(locks)
+    while remaining:
+        free = [l for l in remaining if not any((h, l) in edges for h in remaining if h != l)]
+        if not free:
+            return 'lock_order_cycle; %d locks ask for each other while held' % len(remaining)
+        for l in free:
+            rank[l] = len(rank)
+            remaining.remove(l)
+    ctx.extra['lock_order_edges_max'] = max(ctx.extra.get('lock_order_edges_max', 0), len(edges))
+    if edges and ctx.model_ok and not ctx.searching:
+        plist = [[[0 if k == 'a' else 1, rank[l]] for k, l in progs.get(t, [])] for t in range(max(progs) + 1)]
+        out = ctx.model([[210, [plist, []]]])[0]
+        if out != [-999] and not out[0]:
+            return 'model_lock_order_differs; the lock operations of the run do not fit the ranked discipline %r' % (plist,)
+        ctx.count('lock_order_programs_checked')
+    return None
+
+
 def run_one(ctx, site, make, files, schedule, replaying=False):
     s = Sched(files, schedule)
     funcs, check = make(s)
@@ -269,6 +310,8 @@ def run_one(ctx, site, make, files, schedule, replaying=False):
             break
     if problem is None:
         problem = check(results)
+    if problem is None:
+        problem = lock_order_problem(ctx, s)
     overlap = len({t for t, _ in trace}) > 1 and any(a[0] != b[0] for a, b in zip(trace, trace[1:]))
     if problem is not None:
         sym = symptom_of(problem)
@@ -1085,8 +1128,11 @@ def threaded_vs_sync(ctx):
             continue
         rl = ReadLog(x.store)
         try:
-            if ctx.tier == 'thorough':
-                combos = [(i, j) for i in INDICES for j in (False, True, 2)]
+            if ctx.tier == 'thorough' and fixture in ('tiny', 'l1'):
+                combos = [(i, rng.choice((False, True, 2))) for i in INDICES]
+            elif ctx.tier == 'thorough':
+                combos = [(i, j) for i in ('all', 'fancy', 'dump') for j in (False, True)] + \
+                    [(i, j) for i in EXTRA_INDICES for j in (rng.choice((False, True)), 2)]
             elif fixture in ('tiny', 'l1'):
                 combos = [('all', True), (rng.choice(EXTRA_INDICES), rng.choice((False, 2)))]
             else:
@@ -1109,7 +1155,8 @@ def threaded_vs_sync(ctx):
                     continue
                 ref_reads = rl.take()
                 descs = schedulers_for(ctx, rng)
-                if ctx.tier != 'thorough' and not (iname == 'all' and joint is True and fixture not in ('tiny', 'l1')):
+                if (ctx.tier != 'thorough' and not (iname == 'all' and joint is True and fixture not in ('tiny', 'l1'))) or \
+                        (ctx.tier == 'thorough' and (iname in EXTRA_INDICES or fixture in ('tiny', 'l1'))):
                     descs = [q for q in descs if q['type'] == 'model'][::2] + descs[1:4:2]
                 ctx.count('load_index=%s' % iname)
                 ctx.count('load_joint=%s' % {False: 'separate', True: 'joint', 2: 'joint_out'}[joint])
